@@ -90,7 +90,7 @@ T = {
 }
 
 # checks that are finished and verified silent on the unchanged tree
-READY = {"C01", "C02", "C03", "C04", "C05", "C06", "C07", "C08", "C09", "C10", "C11", "C13", "C14", "C15", "C16", "C17", "C18", "C19", "C20"}
+READY = {"C01", "C02", "C03", "C04", "C05", "C06", "C07", "C08", "C09", "C10", "C11", "C12", "C13", "C14", "C15", "C16", "C17", "C18", "C19", "C20"}
 
 NOT_BUILT_REASON = ("check not built yet in this round (designed in "
                     "DESIGN.md section 3); not claimed until it exists")
